@@ -275,3 +275,23 @@ package mint
 //@   safety C06
 //@   requires minv(m)
 //@   calls (storage.MintDB).UpdateMintQuoteState asserts @unpaid2paid [C03] db.mq[quoteId] ==> (db.mqrow[quoteId].State == nut04.Unpaid && state == nut04.Paid)
+
+// SIG_ALL (NUT-11/14): every input carries SIG_ALL with the same key list and
+// the same threshold, and every output is signed (and, for HTLC, carries the
+// preimage). Signature counting is HasValidSignatures (ghost counters hvs.*).
+//@ macro sigall(sec) = (exists t :: 0 <= t && t < len(sec.Data.Tags) && len(sec.Data.Tags[t]) == 2 && sec.Data.Tags[t][0] == "sigflag" && sec.Data.Tags[t][1] == "SIG_ALL")
+//@ macro nsigsof(sec) = (tags.parse(sec.Data.Tags).NSigs > 0 ? tags.parse(sec.Data.Tags).NSigs : 1)
+//@ macro samecond(first, sec) = nut11.keysok(sec) && tags.ok(sec.Data.Tags) && deepeq(box(nut11.keysof(first), slice(ptr(btcec.PublicKey))), box(nut11.keysof(sec), slice(ptr(btcec.PublicKey)))) && nsigsof(first) == nsigsof(sec)
+
+//@ func verifyBlindedMessages
+//@   tags C12 C13
+//@   safety C06 C12
+//@   requires len(proofs) >= 1
+//@   loop range(proofs) invariant 0 <= i && i <= len(proofs) && secret == nut10.parse(proofs[0].Secret) && nut10.ok(proofs[0].Secret) && pubkeys == nut11.keysof(secret) && nut11.keysok(secret) && tags.ok(secret.Data.Tags) && signaturesRequired == nsigsof(secret) && hvs.calls == old(hvs.calls) && hvs.fails == old(hvs.fails) && (forall j :: 0 <= j && j < i ==> nut10.ok(proofs[j].Secret) && sigall(nut10.parse(proofs[j].Secret)) && samecond(secret, nut10.parse(proofs[j].Secret)))
+//@   loop range(blindedMessages) invariant 0 <= i && i <= len(blindedMessages) && secret == nut10.parse(proofs[0].Secret) && pubkeys == nut11.keysof(secret) && signaturesRequired == nsigsof(secret) && hvs.calls == old(hvs.calls) + i && hvs.fails == old(hvs.fails) && (forall j :: 0 <= j && j < len(proofs) ==> nut10.ok(proofs[j].Secret) && sigall(nut10.parse(proofs[j].Secret)) && samecond(secret, nut10.parse(proofs[j].Secret)))
+//@   calls nut11.HasValidSignatures asserts @handed [C12,C13] hexok(bm.B_) && bytes(hash) == sha256(hexdec(bm.B_)) && Nsigs == nsigsof(nut10.parse(proofs[0].Secret)) && pubkeys == nut11.keysof(nut10.parse(proofs[0].Secret)) && (forall a, b :: 0 <= a && a < b && b < len(signatures) ==> signatures[a] != signatures[b])
+//@   calls nut11.HasValidSignatures asserts @htlcpreimage [C13] secret.Kind == nut10.HTLC ==> hexok(local(witness, nut14.HTLCWitness).Preimage) && len(secret.Data.Data) == 64 && hexenc(sha256(hexdec(local(witness, nut14.HTLCWitness).Preimage))) == secret.Data.Data && signatures == local(witness, nut14.HTLCWitness).Signatures
+//@   calls nut11.HasValidSignatures asserts @p2pkwitness [C12] secret.Kind == nut10.P2PK ==> signatures == local(witness, nut11.P2PKWitness).Signatures
+//@   ensures @allsigall [C12] err == nil ==> (forall j :: 0 <= j && j < len(proofs) ==> nut10.ok(proofs[j].Secret) && sigall(nut10.parse(proofs[j].Secret)) && samecond(nut10.parse(proofs[0].Secret), nut10.parse(proofs[j].Secret)))
+//@   ensures @outputs [C12,C13] err == nil ==> hvs.calls == old(hvs.calls) + len(blindedMessages) && hvs.fails == old(hvs.fails)
+//@   ensures @kind [C12,C13] err == nil && len(blindedMessages) > 0 ==> nut10.parse(proofs[0].Secret).Kind == nut10.P2PK || nut10.parse(proofs[0].Secret).Kind == nut10.HTLC
